@@ -290,6 +290,23 @@ def catalogue():
     c.append(("cat|index-of-mismatch", "a: [int...] = [1]\nprint \"@run\"\n" + probe("a.index_of(\"x\")")))
     c.append(("cat|export-type-mismatch", "import v from lib\nprint \"@run\"\n" + probe("v") + probe("v + 1"), {"lib.ms": "export v: int = 5\n"}))
     c.append(("cat|import-fn-type", "import f from lib\nprint \"@run\"\n" + probe("f(2)") + probe("f(2) + 1"), {"lib.ms": "export f: fn(int) -> int = fn(a: int) -> int {\n\treturn a\n}\n"}))
+    # two modules each export a class with ONE name and the same member names, but other member types: an object of one must
+    # not pass for the other (if the program is accepted, the probes show a field whose kind contradicts its static type)
+    ga = ("export class Pt {\n\tx: int\n\tconstructor(self, x: int) {\n\t\tself.x = x\n\t}\n\tfn val(self) -> int {\n\t\treturn self.x\n\t}\n}\n"
+          "export usept: fn(Pt) -> int = fn(p: Pt) -> int {\n\tprint \"@probe\"\n\tprint typeof (p.x)\n\tprint (p.x)\n\tprint \"@probe\"\n\tprint typeof (p.val())\n\tprint (p.val())\n\treturn p.x + 1\n}\n")
+    gb = ("export class Pt {\n\tx: str\n\tconstructor(self, x: str) {\n\t\tself.x = x\n\t}\n\tfn val(self) -> str {\n\t\treturn self.x\n\t}\n}\n"
+          "export mkpt: fn() -> Pt = fn() -> Pt {\n\treturn Pt(\"left\")\n}\n")
+    two = {"ga.ms": ga, "gb.ms": gb}
+    c.append(("cat|same-named-classes-of-two-modules|argument", "import ga\nimport gb\nprint \"@run\"\nprint ga.usept(gb.mkpt())\n", two))
+    c.append(("cat|same-named-classes-of-two-modules|declaration", "import Pt from ga\nimport gb\nprint \"@run\"\nq: Pt = gb.mkpt()\n" + probe("q.x") + probe("q.x + 1") + probe("q.val()"), two))
+    c.append(("cat|same-named-classes-of-two-modules|push", "import Pt from ga\nimport gb\nprint \"@run\"\nl: [Pt...] = [Pt(1)]\nl.push(gb.mkpt())\ne = l[1]\n" + probe("e.x") + probe("e.x + 1"), two))
+    c.append(("cat|same-named-classes-of-two-modules|reassign", "import Pt from ga\nimport gb\nprint \"@run\"\nq = Pt(1)\nq = gb.mkpt()\n" + probe("q.x") + probe("q.x + 1"), two))
+    c.append(("cat|same-named-class-in-main-and-module", "import gb\nclass Pt {\n\tx: int\n\tconstructor(self, x: int) {\n\t\tself.x = x\n\t}\n\tfn val(self) -> int {\n\t\treturn self.x\n\t}\n}\n"
+              "takes = fn(p: Pt) -> int {\n" + "".join("\t" + l + "\n" for l in (probe("p.x") + probe("p.val()")).strip().split("\n")) + "\treturn p.x + 1\n}\nprint \"@run\"\nprint takes(gb.mkpt())\n", {"gb.ms": gb}))
+    # integer literals that do not fit an int, as operands next to run-time values (nothing to fold)
+    c.append(("cat|wide-literal-operand", "x: int = 5\nb: bigint = B7\nprint \"@run\"\n" + probe("x + 3000000000") + probe("3000000000") + probe("x * 4000000000") + probe("0xFFFFFFFF") +
+              probe("b + 2147483648") + probe("x - 2147483648") + probe("x < 2147483648") + probe("2147483647") + probe("x + 2147483647")))
+    c.append(("cat|wide-literal-stored", "print \"@run\"\ny = 2147483648\n" + probe("y") + probe("y + 1") + "l = [3000000000]\n" + probe("l[0]") + "m = map[str, bigint] {\"k\": 3000000000}\n" + probe("m[\"k\"]")))
     c.append(("cat|export-declared-type-differs", "import f from lib\nprint \"@run\"\n" + probe("f(2)"), {"lib.ms": "export f: fn(int) -> str = fn(a: int) -> int {\n\treturn a\n}\n"}))
     return c
 
